@@ -31,6 +31,10 @@ import DuckModel.Lemmas.ScriptRunLemmas
 import DuckModel.Lemmas.ScriptLoopConcat
 import DuckModel.Lemmas.ScriptLoopSetFromArray
 import DuckModel.Lemmas.ScriptLoopArrayConcat
+import DuckModel.Lemmas.ScriptLoopMapContainsValueFinal
+import DuckModel.Lemmas.ScriptLoopArrayConcatFinal
+import DuckModel.Lemmas.ScriptLoopArrayContainsCall
+import DuckModel.Lemmas.ScriptLoopArrayJoinFinal
 
 namespace Duck
 open Duck.Alias Duck.Coll Duck.ScriptRun Duck.Spec
@@ -145,12 +149,12 @@ theorem C12_script_array_is_empty_next_name :
   · decide +kernel
   · decide +kernel
 
-/-! ### scripts with loops and branches: run from source, not yet proved for all inputs
+/-! ### scripts with loops and branches: evaluated instances
 
 `concat`, `unset`, `set_from_array`, `array_concat`, `map_contains_value` run in the model (flow
-control of Sdk/ScriptRun.lean); the driver op `srun` compares them with the real commands.  What
-is PROVED about them here are evaluated instances - and one disagreement between the source-run
-model and the specified function, which is the recorded finding of /repo. -/
+control of Sdk/ScriptRun.lean); the driver op `srun` compares them with the real commands.  This
+section: evaluated instances - and one disagreement between the source-run model and the
+specified function, which is the recorded finding of /repo.  The for-all theorems follow below. -/
 
 /-- DISAGREEMENT source-run vs specified function = finding `C12-array-concat-after-error`:
     `array_concat nope` answers `Error` (its validation loop raises `trigger_error` inside
@@ -444,6 +448,428 @@ theorem C12_script_array_concat_error_leaves_entry (a : Str) (rest : List Str) (
   · intro h
     exact h _ rfl rfl
 
+
+/-! ### `map_contains_value`: a script command inside a command condition, a loop with an early exit
+
+`not map_is_empty ${argument::1}` runs the SCRIPT `map_is_empty` from its source, nested (one
+more temporary argument array, one more allocator name; the nested wrapper clears ITS prefix
+`scope::map_is_empty::` in the same variable map: the caller's variables under that prefix are
+gone after `map_contains_value` - in /repo too).  The loop runs over the key array `map_keys`
+made (ascending in the model, hash order in the code); a hit releases the key array INSIDE the
+loop, the `for` line then finds no next cell and leaves the loop (early exit), `set ${found}`
+answers `true`.  Each passed `if` leaves its if-call entry on the if call stack (`end_if` never
+pops): `mcvPushed`.
+
+Hypotheses beyond those of `set_from_array`:
+  * `hfree2`: three names are drawn (argument array, nested argument array, key array);
+  * `hc4` / `hc12` / `hc8`: the cached block ends of the script's three flow lines are right;
+  * `hkh`: for an EMPTY map the tail `release ${scope::map_contains_value::key_array_handle}`
+    reads a variable the body never set: the caller's value of it (if any) must not name a live
+    handle (it would be released);
+  * `hnodup`: the map's keys are pairwise different (an invariant of the collection model's
+    maps, `minsert` keeps it; the specified function looks at all entries, the script at the
+    entry `map_get` finds for each key).
+The ANSWER does not depend on the order of the key array: `C12_script_map_contains_value_key_order`. -/
+
+/-- fewer than two arguments: `Error`, nothing touched - like the specified function -/
+theorem C12_script_map_contains_value_few (args : List Str) (vars : Vars) (st : ScriptSt) (hfew : args.length < 2) :
+    runScriptCmd "map_contains_value".toList args vars st = (.error invalidArgsMsg, vars, st) ∧
+    (Coll.exec st.coll .mapContainsValue args).2 = .err := by
+  constructor
+  · unfold runScriptCmd
+    rw [mcv_entry, aliasRun_few _ _ _ _ _ _ _ hfew]
+  · match args, hfew with
+    | [], _ => rfl
+    | [_], _ => rfl
+
+/-- the answer is the same over every key order: for ANY list `K` with the elements of the
+    map's keys, "some key of `K` carries the value" (what the loop computes, `mcv_loop`, for any
+    `K` in the key array) is "the value occurs among the map's values" (the specified function) -/
+theorem C12_script_map_contains_value_key_order (m : List (Str × Item)) (hn : (m.map Prod.fst).Nodup) (v : Str)
+    (K K' : List Str) (hK : ∀ k, k ∈ K ↔ k ∈ m.map Prod.fst) (hK' : ∀ k, k ∈ K' ↔ k ∈ m.map Prod.fst) :
+    K.any (hitB m v) = K'.any (hitB m v) ∧
+    K.any (hitB m v) = (m.map fun kv => kv.2.render).contains v := by
+  rw [any_hitB_eq m hn v K hK, any_hitB_eq m hn v K' hK']
+  exact ⟨rfl, rfl⟩
+
+/-- `map_contains_value` from source = the specified function, for every map handle / value /
+    further arguments, every variable map and state: the same answer (`true` / `false` / both an
+    `Error`), the table lookup-equal to the caller's (both temporary arrays and the key array are
+    gone again), and the frame. -/
+theorem C12_script_map_contains_value_correct (a v : Str) (rest : List Str) (vars : Vars) (st : ScriptSt)
+    (hfree : tget st.coll.tbl (Coll.handleName st.coll.next) = none)
+    (hfree1 : tget st.coll.tbl (Coll.handleName (st.coll.next + 1)) = none)
+    (hfree2 : tget st.coll.tbl (Coll.handleName (st.coll.next + 2)) = none)
+    (hok : ArgOK a = true)
+    (hstale : NoStaleFor "scope::map_contains_value".toList st.forStack)
+    (hc4 : IfCacheOK st.ifMeta "scope::map_contains_value::4".toList 16)
+    (hc12 : IfCacheOK st.ifMeta "scope::map_contains_value::12".toList 14)
+    (hc8 : CacheOK st.forMeta "scope::map_contains_value::8".toList 15)
+    (hkh : tget st.coll.tbl ((vars.get "scope::map_contains_value::key_array_handle".toList).getD []) = none)
+    (hnodup : ∀ m, tget st.coll.tbl a = some (.map m) → (m.map Prod.fst).Nodup)
+    (hfuel : 6 * mapLen st.coll.tbl a + 16 ≤ scriptFuel) :
+    Agrees (runScriptCmd "map_contains_value".toList (a :: v :: rest) vars st).1
+      (Coll.exec st.coll .mapContainsValue (a :: v :: rest)).2 ∧
+    LookupEq (runScriptCmd "map_contains_value".toList (a :: v :: rest) vars st).2.2.coll.tbl st.coll.tbl ∧
+    LoopFrame "scope::map_contains_value".toList (mcvAlloc st.coll.tbl a)
+      (clear "scope::map_contains_value".toList (clear "scope::map_is_empty".toList vars))
+      (mcvPushed st.coll.tbl a v) st
+      (runScriptCmd "map_contains_value".toList (a :: v :: rest) vars st) := by
+  obtain ⟨k, hk⟩ : ∃ k, scriptFuel = k + 6 * mapLen st.coll.tbl a + 16 :=
+    ⟨scriptFuel - (6 * mapLen st.coll.tbl a + 16), by omega⟩
+  obtain ⟨r, hrun, hpost⟩ := mcv_call 4 a v rest vars st hfree hfree1 hfree2 hok hstale
+    (by rw [mcv_keys.1]; exact hc4) (by rw [mcv_keys.2.1]; exact hc12) (by rw [mcv_keys.2.2]; exact hc8) hkh
+  unfold runScriptCmd
+  rw [hk, show scriptDepth = 4 + 2 from rfl, hrun k]
+  refine ⟨?_, hpost.tbl, hpost.frame⟩
+  rw [hpost.res]
+  unfold mcvRes
+  simp only [Coll.exec, cmdMapContainsValue]
+  cases hv : tget st.coll.tbl a with
+  | none => trivial
+  | some w =>
+    cases w with
+    | map m =>
+      show some (boolStr _) = some (boolStr _)
+      rw [any_hitB_eq m (hnodup m hv) v _ (fun k => mem_sortStr k _)]
+    | _ => trivial
+
+/-- the hypotheses about the flow-control state hold again after every run of
+    `map_contains_value` (no for-in entry of the script stays: a hit leaves the loop through the
+    `for` line, not through an error) -/
+theorem C12_script_map_contains_value_reestablishes (a v : Str) (rest : List Str) (vars : Vars) (st : ScriptSt)
+    (hfree : tget st.coll.tbl (Coll.handleName st.coll.next) = none)
+    (hfree1 : tget st.coll.tbl (Coll.handleName (st.coll.next + 1)) = none)
+    (hfree2 : tget st.coll.tbl (Coll.handleName (st.coll.next + 2)) = none)
+    (hok : ArgOK a = true)
+    (hstale : NoStaleFor "scope::map_contains_value".toList st.forStack)
+    (hc4 : IfCacheOK st.ifMeta "scope::map_contains_value::4".toList 16)
+    (hc12 : IfCacheOK st.ifMeta "scope::map_contains_value::12".toList 14)
+    (hc8 : CacheOK st.forMeta "scope::map_contains_value::8".toList 15)
+    (hkh : tget st.coll.tbl ((vars.get "scope::map_contains_value::key_array_handle".toList).getD []) = none)
+    (hfuel : 6 * mapLen st.coll.tbl a + 16 ≤ scriptFuel) :
+    NoStaleFor "scope::map_contains_value".toList (runScriptCmd "map_contains_value".toList (a :: v :: rest) vars st).2.2.forStack ∧
+    IfCacheOK (runScriptCmd "map_contains_value".toList (a :: v :: rest) vars st).2.2.ifMeta "scope::map_contains_value::4".toList 16 ∧
+    IfCacheOK (runScriptCmd "map_contains_value".toList (a :: v :: rest) vars st).2.2.ifMeta "scope::map_contains_value::12".toList 14 ∧
+    CacheOK (runScriptCmd "map_contains_value".toList (a :: v :: rest) vars st).2.2.forMeta "scope::map_contains_value::8".toList 15 := by
+  obtain ⟨k, hk⟩ : ∃ k, scriptFuel = k + 6 * mapLen st.coll.tbl a + 16 :=
+    ⟨scriptFuel - (6 * mapLen st.coll.tbl a + 16), by omega⟩
+  obtain ⟨r, hrun, hpost⟩ := mcv_call 4 a v rest vars st hfree hfree1 hfree2 hok hstale
+    (by rw [mcv_keys.1]; exact hc4) (by rw [mcv_keys.2.1]; exact hc12) (by rw [mcv_keys.2.2]; exact hc8) hkh
+  unfold runScriptCmd
+  rw [hk, show scriptDepth = 4 + 2 from rfl, hrun k]
+  refine ⟨by rw [hpost.frame.forStack]; exact hstale, ?_, ?_, ?_⟩
+  · rw [← mcv_keys.1]; exact hpost.c4
+  · rw [← mcv_keys.2.1]; exact hpost.c12
+  · rw [← mcv_keys.2.2]; exact hpost.c8
+
+
+/-! ### `array_concat`, success path: nested loops
+
+For every argument list whose elements all name live arrays (`hlive`; each of the decidable C09
+class `ArgOK`, which every handle name is): the validation loop passes (3 instructions per
+argument), `array` draws the second allocator name, the outer loop runs the inner loop once per
+argument (`array_push` per cell; the inner `for` line re-enters its block lookup on every outer
+iteration), `set ${array}` answers the handle.  The other path (`hlive` false at the first
+argument) is `C12_script_array_concat_error_leaves_entry`. -/
+
+/-- `array_concat` from source = the specified function up to the NAME of the new handle
+    (`AgreesAlloc`), for every non-empty argument list of live arrays, every variable map and
+    state; the frame: 2 names drawn, variables = the caller's minus the command's prefix, both
+    call stacks as before, caches changed only under the own prefix.  Instruction bound
+    `6·n + 3·(total number of cells) + 9`. -/
+theorem C12_script_array_concat_correct (a : Str) (rest : List Str) (vars : Vars) (st : ScriptSt)
+    (hfree : tget st.coll.tbl (Coll.handleName st.coll.next) = none)
+    (hfree1 : tget st.coll.tbl (Coll.handleName (st.coll.next + 1)) = none)
+    (hlive : ∀ x ∈ a :: rest, ∃ l, tget st.coll.tbl x = some (.list l))
+    (hok : ∀ x ∈ a :: rest, ArgOK x = true)
+    (hstale : NoStaleFor "scope::array_concat".toList st.forStack)
+    (hc1 : CacheOK st.forMeta "scope::array_concat::1".toList 5)
+    (hc2 : IfCacheOK st.ifMeta "scope::array_concat::2".toList 4)
+    (hc9 : CacheOK st.forMeta "scope::array_concat::9".toList 13)
+    (hc10 : CacheOK st.forMeta "scope::array_concat::10".toList 12)
+    (hfuel : 6 * (a :: rest).length + 3 * (acCells st.coll.tbl (a :: rest)).length + 9 ≤ scriptFuel) :
+    AgreesAlloc st.coll (Coll.exec st.coll .arrayConcat (a :: rest))
+      (runScriptCmd "array_concat".toList (a :: rest) vars st).1
+      (runScriptCmd "array_concat".toList (a :: rest) vars st).2.2.coll.tbl ∧
+    LoopFrame "scope::array_concat".toList 2 (clear "scope::array_concat".toList vars) [] st
+      (runScriptCmd "array_concat".toList (a :: rest) vars st) := by
+  have hcost := acCost_eq st.coll.tbl (a :: rest)
+  obtain ⟨k, hk⟩ : ∃ k, scriptFuel = k + 3 * (a :: rest).length + acCost st.coll.tbl (a :: rest) + 9 :=
+    ⟨scriptFuel - (3 * (a :: rest).length + acCost st.coll.tbl (a :: rest) + 9), by omega⟩
+  obtain ⟨r, hrun, hpost⟩ := ac_call 4 a rest vars st hfree hfree1 (fun x hx => ⟨hok x hx, hlive x hx⟩) hstale
+    (by rw [ac_keys.1]; exact hc1) (by rw [ac_keys.2.1]; exact hc2) (by rw [ac_keys.2.2.1]; exact hc9)
+    (by rw [ac_keys.2.2.2]; exact hc10)
+  unfold runScriptCmd
+  rw [hk, show scriptDepth = 4 + 2 from rfl, hrun k]
+  refine ⟨?_, hpost.frame⟩
+  obtain ⟨ls, hls⟩ := lists?_of_live st.coll.tbl (a :: rest) hlive
+  unfold AgreesAlloc
+  simp only [Coll.exec, cmdArrayConcat, hls, putHandle]
+  refine ⟨Coll.handleName st.coll.next, Coll.handleName (st.coll.next + 1), rfl, hpost.res, hfree1, ?_, ?_, hpost.other⟩
+  · rw [hpost.arr]; rfl
+  · rw [hpost.arr, tget_tinsert, if_pos rfl, acCells_lists st.coll.tbl (a :: rest) ls hls]
+
+/-- `array_concat` WITHOUT arguments = the specified function (a new empty array; same handle
+    name: no temporary argument array is made).  `hempty`: the script's two loops read the
+    caller's variable `scope::array_concat::arguments` (the wrapper sets it only for a non-empty
+    argument list); its value (if any) must not name an array. -/
+theorem C12_script_array_concat_empty (vars : Vars) (st : ScriptSt)
+    (hfree : tget st.coll.tbl (Coll.handleName st.coll.next) = none)
+    (hstale : NoStaleFor "scope::array_concat".toList st.forStack)
+    (hc1 : CacheOK st.forMeta "scope::array_concat::1".toList 5)
+    (hc9 : CacheOK st.forMeta "scope::array_concat::9".toList 13)
+    (hempty : ∀ l, tget st.coll.tbl ((vars.get "scope::array_concat::arguments".toList).getD []) ≠ some (.list l)) :
+    AgreesAlloc st.coll (Coll.exec st.coll .arrayConcat [])
+      (runScriptCmd "array_concat".toList [] vars st).1
+      (runScriptCmd "array_concat".toList [] vars st).2.2.coll.tbl ∧
+    (runScriptCmd "array_concat".toList [] vars st).2.1 = clear "scope::array_concat".toList vars ∧
+    (runScriptCmd "array_concat".toList [] vars st).2.2.forStack = st.forStack ∧
+    (runScriptCmd "array_concat".toList [] vars st).2.2.ifStack = st.ifStack ∧
+    (runScriptCmd "array_concat".toList [] vars st).2.2.ctx = st.ctx := by
+  unfold runScriptCmd
+  rw [show scriptFuel = 99991 + 9 from rfl, show scriptDepth = 5 + 1 from rfl,
+    ac_runF_nil 5 99991 vars st hstale (by rw [ac_keys.1]; exact hc1) (by rw [ac_keys.2.2.1]; exact hc9) hempty]
+  refine ⟨?_, rfl, rfl, rfl, rfl⟩
+  unfold AgreesAlloc
+  simp only [Coll.exec, cmdArrayConcat, lists?, putHandle]
+  refine ⟨Coll.handleName st.coll.next, Coll.handleName st.coll.next, rfl, rfl, hfree, ?_, ?_, ?_⟩
+  · show (tget (tinsert st.coll.tbl (Coll.handleName st.coll.next) (.list [])) (Coll.handleName st.coll.next)).isSome = true
+    rw [tget_tinsert, if_pos rfl]; rfl
+  · show tget (tinsert st.coll.tbl (Coll.handleName st.coll.next) (.list [])) _ = tget (tinsert st.coll.tbl _ _) _
+    rfl
+  · intro k hk
+    show tget (tinsert st.coll.tbl (Coll.handleName st.coll.next) (.list [])) k = _
+    rw [tget_tinsert, if_neg hk]
+
+/-- the hypotheses about the flow-control state hold again after a successful `array_concat`
+    (the for-in entries of all three loops are popped; contrast
+    `C12_script_array_concat_error_leaves_entry`) -/
+theorem C12_script_array_concat_reestablishes (a : Str) (rest : List Str) (vars : Vars) (st : ScriptSt)
+    (hfree : tget st.coll.tbl (Coll.handleName st.coll.next) = none)
+    (hfree1 : tget st.coll.tbl (Coll.handleName (st.coll.next + 1)) = none)
+    (hlive : ∀ x ∈ a :: rest, ∃ l, tget st.coll.tbl x = some (.list l))
+    (hok : ∀ x ∈ a :: rest, ArgOK x = true)
+    (hstale : NoStaleFor "scope::array_concat".toList st.forStack)
+    (hc1 : CacheOK st.forMeta "scope::array_concat::1".toList 5)
+    (hc2 : IfCacheOK st.ifMeta "scope::array_concat::2".toList 4)
+    (hc9 : CacheOK st.forMeta "scope::array_concat::9".toList 13)
+    (hc10 : CacheOK st.forMeta "scope::array_concat::10".toList 12)
+    (hfuel : 6 * (a :: rest).length + 3 * (acCells st.coll.tbl (a :: rest)).length + 9 ≤ scriptFuel) :
+    NoStaleFor "scope::array_concat".toList (runScriptCmd "array_concat".toList (a :: rest) vars st).2.2.forStack ∧
+    CacheOK (runScriptCmd "array_concat".toList (a :: rest) vars st).2.2.forMeta "scope::array_concat::1".toList 5 ∧
+    IfCacheOK (runScriptCmd "array_concat".toList (a :: rest) vars st).2.2.ifMeta "scope::array_concat::2".toList 4 ∧
+    CacheOK (runScriptCmd "array_concat".toList (a :: rest) vars st).2.2.forMeta "scope::array_concat::9".toList 13 ∧
+    CacheOK (runScriptCmd "array_concat".toList (a :: rest) vars st).2.2.forMeta "scope::array_concat::10".toList 12 := by
+  have hcost := acCost_eq st.coll.tbl (a :: rest)
+  obtain ⟨k, hk⟩ : ∃ k, scriptFuel = k + 3 * (a :: rest).length + acCost st.coll.tbl (a :: rest) + 9 :=
+    ⟨scriptFuel - (3 * (a :: rest).length + acCost st.coll.tbl (a :: rest) + 9), by omega⟩
+  obtain ⟨r, hrun, hpost⟩ := ac_call 4 a rest vars st hfree hfree1 (fun x hx => ⟨hok x hx, hlive x hx⟩) hstale
+    (by rw [ac_keys.1]; exact hc1) (by rw [ac_keys.2.1]; exact hc2) (by rw [ac_keys.2.2.1]; exact hc9)
+    (by rw [ac_keys.2.2.2]; exact hc10)
+  unfold runScriptCmd
+  rw [hk, show scriptDepth = 4 + 2 from rfl, hrun k]
+  refine ⟨by rw [hpost.frame.forStack]; exact hstale, ?_, ?_, ?_, ?_⟩
+  · rw [← ac_keys.1]; exact hpost.c1
+  · rw [← ac_keys.2.1]; exact hpost.c2
+  · rw [← ac_keys.2.2.1]; exact hpost.c9
+  · rw [← ac_keys.2.2.2]; exact hpost.c10
+
+
+/-! ### `array_contains`: a loop that is left by unsetting the handle variable, `calc` in the body
+
+No value of the caller is re-read as script text by this body: the searched value and the cells
+reach `equals` through `${…}` bindings only, the conditions are `if ${found}` on `true` / `false`.
+So NO class restriction on the arguments (no `ArgOK`) is needed - every handle text, every value.
+Hypotheses besides the usual ones:
+  * `hne`: the first argument is not the (not yet drawn) name of the temporary argument array
+    (counter-allocator artefact, as for `array_is_empty`);
+  * `hE`: the EMPTY string names no array: after a hit the script unsets `argument::1` and the
+    `for` line reads the handle `""`;
+  * `hfuel`: the budget covers `7·n + 12` instructions (then the counter stays far below 2^53 and
+    `calc ${counter} + 1` prints a plain numeral: `runCalc_succ`). -/
+
+/-- fewer than two arguments: `Error`, nothing touched - like the specified function -/
+theorem C12_script_array_contains_few (args : List Str) (vars : Vars) (st : ScriptSt) (hfew : args.length < 2) :
+    runScriptCmd "array_contains".toList args vars st = (.error invalidArgsMsg, vars, st) ∧
+    (Coll.exec st.coll .arrayContains args).2 = .err := by
+  constructor
+  · unfold runScriptCmd
+    rw [kc_entry, aliasRun_few _ _ _ _ _ _ _ hfew]
+  · match args, hfew with
+    | [], _ => rfl
+    | [_], _ => rfl
+
+/-- `array_contains` from source = the specified function (index of the first equal cell, else
+    `false`; `false` for a handle that names no array), for every handle text, every value, every
+    variable map and state; the table reads as before; the frame (a hit leaves the entry of its
+    `if` block on the if call stack). -/
+theorem C12_script_array_contains_correct (a v : Str) (rest : List Str) (vars : Vars) (st : ScriptSt)
+    (hfree : tget st.coll.tbl (Coll.handleName st.coll.next) = none)
+    (hne : a ≠ Coll.handleName st.coll.next)
+    (hstale : NoStaleFor "scope::array_contains".toList st.forStack)
+    (hc5 : CacheOK st.forMeta "scope::array_contains::5".toList 14)
+    (hc8 : IfCacheOK st.ifMeta "scope::array_contains::8".toList 11)
+    (hE : ∀ l, tget st.coll.tbl [] ≠ some (.list l))
+    (hfuel : 7 * arrLen st.coll.tbl a + 12 ≤ scriptFuel) :
+    Agrees (runScriptCmd "array_contains".toList (a :: v :: rest) vars st).1
+      (Coll.exec st.coll .arrayContains (a :: v :: rest)).2 ∧
+    LookupEq (runScriptCmd "array_contains".toList (a :: v :: rest) vars st).2.2.coll.tbl st.coll.tbl ∧
+    LoopFrame "scope::array_contains".toList 1 (clear "scope::array_contains".toList vars)
+      (if kcHit st.coll.tbl a v then [ifEntry 8 11 "scope::array_contains".toList] else []) st
+      (runScriptCmd "array_contains".toList (a :: v :: rest) vars st) := by
+  obtain ⟨k, hk⟩ : ∃ k, scriptFuel = k + 7 * arrLen st.coll.tbl a + 12 :=
+    ⟨scriptFuel - (7 * arrLen st.coll.tbl a + 12), by omega⟩
+  have hlen : arrLen st.coll.tbl a < Calc.two53 := by
+    have : scriptFuel = 100000 := rfl
+    unfold Calc.two53; omega
+  obtain ⟨r, hrun, hpost⟩ := kc_call 5 a v rest vars st hfree hne hstale
+    (by rw [kc_keys.1]; exact hc5) (by rw [kc_keys.2]; exact hc8) hE hlen
+  unfold runScriptCmd
+  rw [hk, show scriptDepth = 5 + 1 from rfl, hrun k]
+  refine ⟨?_, hpost.tbl, hpost.frame⟩
+  rw [hpost.res]
+  unfold kcResT kcRes
+  simp only [Coll.exec, cmdArrayContains]
+  cases hv : tget st.coll.tbl a with
+  | none => exact rfl
+  | some w =>
+    cases w with
+    | list l =>
+      simp only
+      cases indexOfStr v (l.map Item.render) 0 <;> exact rfl
+    | _ => exact rfl
+
+theorem C12_script_array_contains_reestablishes (a v : Str) (rest : List Str) (vars : Vars) (st : ScriptSt)
+    (hfree : tget st.coll.tbl (Coll.handleName st.coll.next) = none)
+    (hne : a ≠ Coll.handleName st.coll.next)
+    (hstale : NoStaleFor "scope::array_contains".toList st.forStack)
+    (hc5 : CacheOK st.forMeta "scope::array_contains::5".toList 14)
+    (hc8 : IfCacheOK st.ifMeta "scope::array_contains::8".toList 11)
+    (hE : ∀ l, tget st.coll.tbl [] ≠ some (.list l))
+    (hfuel : 7 * arrLen st.coll.tbl a + 12 ≤ scriptFuel) :
+    NoStaleFor "scope::array_contains".toList (runScriptCmd "array_contains".toList (a :: v :: rest) vars st).2.2.forStack ∧
+    CacheOK (runScriptCmd "array_contains".toList (a :: v :: rest) vars st).2.2.forMeta "scope::array_contains::5".toList 14 ∧
+    IfCacheOK (runScriptCmd "array_contains".toList (a :: v :: rest) vars st).2.2.ifMeta "scope::array_contains::8".toList 11 ∧
+    (∀ l, tget (runScriptCmd "array_contains".toList (a :: v :: rest) vars st).2.2.coll.tbl [] ≠ some (.list l)) := by
+  obtain ⟨k, hk⟩ : ∃ k, scriptFuel = k + 7 * arrLen st.coll.tbl a + 12 :=
+    ⟨scriptFuel - (7 * arrLen st.coll.tbl a + 12), by omega⟩
+  have hlen : arrLen st.coll.tbl a < Calc.two53 := by
+    have : scriptFuel = 100000 := rfl
+    unfold Calc.two53; omega
+  obtain ⟨r, hrun, hpost⟩ := kc_call 5 a v rest vars st hfree hne hstale
+    (by rw [kc_keys.1]; exact hc5) (by rw [kc_keys.2]; exact hc8) hE hlen
+  unfold runScriptCmd
+  rw [hk, show scriptDepth = 5 + 1 from rfl, hrun k]
+  refine ⟨by rw [hpost.frame.forStack]; exact hstale, ?_, ?_, ?_⟩
+  · rw [← kc_keys.1]; exact hpost.c5
+  · rw [← kc_keys.2]; exact hpost.c8
+  · intro l; rw [hpost.tbl []]; exact hE l
+
+
+/-! ### `array_join`, for the class of arguments the body re-reads unchanged
+
+The body puts TWO caller values into command conditions, which rebuild a script line from the
+values and parse it again (the C09 path): the handle in `if not is_array …` / `if not
+array_is_empty …`, the SEPARATOR in `if not is_empty …`.  The positive theorem is for the class
+where that second reading is the identity: `ArgOK a` and `ArgOK sep` (`ArgOK`, the decidable
+class of Sdk/Reserialize.lean: stable under the second expansion - no `%`, no `${` -, no line
+break, no `#` / quote / leading `=` / trailing blank in a bare value; the EMPTY separator, `,`,
+`, `, `-`, multi-byte text … are in it; TAB, CR, `=z`, `${v}` are not).  Outside the class the
+recorded finding C12-array-join-separator-reread applies: `C12_script_array_join_separator_reread`
+(Props/C12ScriptsNatives.lean) stays as the refutation.  The cells are never re-read: no
+restriction on the array's content.
+Further hypotheses: `hne` (counter-allocator artefact), `hstr` (the caller has no variable
+`scope::array_join::string`: the loop appends to it without initialising it), `hsize` (the
+joined text plus one separator stays below 2^53 bytes, so that `calc ${stringlen} -
+${separatorlen}` is exact), the flow-state invariants, the budget `3·n + 16`.
+`not array_is_empty …` runs the SCRIPT `array_is_empty` nested (a second temporary array and
+allocator name; its wrapper clears `scope::array_is_empty::` in the caller's variables). -/
+
+/-- fewer than two arguments: `Error`, nothing touched - like the specified function -/
+theorem C12_script_array_join_few (args : List Str) (vars : Vars) (st : ScriptSt) (hfew : args.length < 2) :
+    runScriptCmd "array_join".toList args vars st = (.error invalidArgsMsg, vars, st) ∧
+    (Coll.exec st.coll .arrayJoin args).2 = .err := by
+  constructor
+  · unfold runScriptCmd
+    rw [aj_entry, aliasRun_few _ _ _ _ _ _ _ hfew]
+  · match args, hfew with
+    | [], _ => rfl
+    | [_], _ => rfl
+
+/-- `array_join` from source = the specified function (`joinStr`: the cells with the separator
+    BETWEEN them; `Error` for a handle that names no array), for handle and separator of the class
+    `ArgOK`, every array content, every variable map and state. -/
+theorem C12_script_array_join_correct (a sep : Str) (rest : List Str) (vars : Vars) (st : ScriptSt)
+    (hfree : tget st.coll.tbl (Coll.handleName st.coll.next) = none)
+    (hfree1 : tget st.coll.tbl (Coll.handleName (st.coll.next + 1)) = none)
+    (hne : a ≠ Coll.handleName st.coll.next)
+    (hok : ArgOK a = true) (hsepOK : ArgOK sep = true)
+    (hstale : NoStaleFor "scope::array_join".toList st.forStack)
+    (hc1 : IfCacheOK st.ifMeta "scope::array_join::1".toList 3)
+    (hc5 : IfCacheOK st.ifMeta "scope::array_join::5".toList 16)
+    (hc10 : IfCacheOK st.ifMeta "scope::array_join::10".toList 15)
+    (hc6 : CacheOK st.forMeta "scope::array_join::6".toList 8)
+    (hstr : vars.get "scope::array_join::string".toList = none)
+    (hsize : ∀ l, tget st.coll.tbl a = some (.list l) →
+      (utf8Encode (joinStr sep (l.map Item.render))).length + (utf8Encode sep).length < Calc.two53)
+    (hfuel : 3 * arrLen st.coll.tbl a + 16 ≤ scriptFuel) :
+    Agrees (runScriptCmd "array_join".toList (a :: sep :: rest) vars st).1
+      (Coll.exec st.coll .arrayJoin (a :: sep :: rest)).2 ∧
+    LookupEq (runScriptCmd "array_join".toList (a :: sep :: rest) vars st).2.2.coll.tbl st.coll.tbl ∧
+    LoopFrame "scope::array_join".toList (if ajIsArr st.coll.tbl a then 2 else 1)
+      (if ajIsArr st.coll.tbl a then
+        clear "scope::array_join".toList (clear "scope::array_is_empty".toList vars)
+       else clear "scope::array_join".toList vars)
+      (ajPushed st.coll.tbl a sep) st
+      (runScriptCmd "array_join".toList (a :: sep :: rest) vars st) := by
+  obtain ⟨k, hk⟩ : ∃ k, scriptFuel = k + 3 * arrLen st.coll.tbl a + 16 :=
+    ⟨scriptFuel - (3 * arrLen st.coll.tbl a + 16), by omega⟩
+  obtain ⟨r, hrun, hpost⟩ := aj_call 3 a sep rest vars st hfree hfree1 hne hok hsepOK hstale
+    (by rw [aj_keys.1]; exact hc1) (by rw [aj_keys.2.1]; exact hc5) (by rw [aj_keys.2.2.1]; exact hc10)
+    (by rw [aj_keys.2.2.2]; exact hc6) hstr (fun l hl => aj_size sep _ (hsize l hl))
+  unfold runScriptCmd
+  rw [hk, show scriptDepth = 3 + 3 from rfl, hrun k]
+  refine ⟨?_, hpost.tbl, hpost.frame⟩
+  rw [hpost.res]
+  unfold ajRes
+  simp only [Coll.exec, cmdArrayJoin]
+  cases hv : tget st.coll.tbl a with
+  | none => trivial
+  | some w => cases w <;> first | exact rfl | trivial
+
+theorem C12_script_array_join_reestablishes (a sep : Str) (rest : List Str) (vars : Vars) (st : ScriptSt)
+    (hfree : tget st.coll.tbl (Coll.handleName st.coll.next) = none)
+    (hfree1 : tget st.coll.tbl (Coll.handleName (st.coll.next + 1)) = none)
+    (hne : a ≠ Coll.handleName st.coll.next)
+    (hok : ArgOK a = true) (hsepOK : ArgOK sep = true)
+    (hstale : NoStaleFor "scope::array_join".toList st.forStack)
+    (hc1 : IfCacheOK st.ifMeta "scope::array_join::1".toList 3)
+    (hc5 : IfCacheOK st.ifMeta "scope::array_join::5".toList 16)
+    (hc10 : IfCacheOK st.ifMeta "scope::array_join::10".toList 15)
+    (hc6 : CacheOK st.forMeta "scope::array_join::6".toList 8)
+    (hstr : vars.get "scope::array_join::string".toList = none)
+    (hsize : ∀ l, tget st.coll.tbl a = some (.list l) →
+      (utf8Encode (joinStr sep (l.map Item.render))).length + (utf8Encode sep).length < Calc.two53)
+    (hfuel : 3 * arrLen st.coll.tbl a + 16 ≤ scriptFuel) :
+    NoStaleFor "scope::array_join".toList (runScriptCmd "array_join".toList (a :: sep :: rest) vars st).2.2.forStack ∧
+    IfCacheOK (runScriptCmd "array_join".toList (a :: sep :: rest) vars st).2.2.ifMeta "scope::array_join::1".toList 3 ∧
+    IfCacheOK (runScriptCmd "array_join".toList (a :: sep :: rest) vars st).2.2.ifMeta "scope::array_join::5".toList 16 ∧
+    IfCacheOK (runScriptCmd "array_join".toList (a :: sep :: rest) vars st).2.2.ifMeta "scope::array_join::10".toList 15 ∧
+    CacheOK (runScriptCmd "array_join".toList (a :: sep :: rest) vars st).2.2.forMeta "scope::array_join::6".toList 8 := by
+  obtain ⟨k, hk⟩ : ∃ k, scriptFuel = k + 3 * arrLen st.coll.tbl a + 16 :=
+    ⟨scriptFuel - (3 * arrLen st.coll.tbl a + 16), by omega⟩
+  obtain ⟨r, hrun, hpost⟩ := aj_call 3 a sep rest vars st hfree hfree1 hne hok hsepOK hstale
+    (by rw [aj_keys.1]; exact hc1) (by rw [aj_keys.2.1]; exact hc5) (by rw [aj_keys.2.2.1]; exact hc10)
+    (by rw [aj_keys.2.2.2]; exact hc6) hstr (fun l hl => aj_size sep _ (hsize l hl))
+  unfold runScriptCmd
+  rw [hk, show scriptDepth = 3 + 3 from rfl, hrun k]
+  refine ⟨by rw [hpost.frame.forStack]; exact hstale, ?_, ?_, ?_, ?_⟩
+  · rw [← aj_keys.1]; exact hpost.c1
+  · rw [← aj_keys.2.1]; exact hpost.c5
+  · rw [← aj_keys.2.2.1]; exact hpost.c10
+  · rw [← aj_keys.2.2.2]; exact hpost.c6
+
 /-! ### non-vacuity -/
 
 /-- an empty and a non-empty array, a map with an empty-string value, a wrong-kind handle -/
@@ -470,6 +896,36 @@ example : NoStaleFor "scope::set_from_array".toList ({} : ScriptSt).forStack ∧
   refine ⟨?_, Or.inl rfl, Or.inl rfl, Or.inl rfl, by decide, by decide, by decide, by decide⟩
   intro e h
   cases h
+
+/-- the hypotheses of the theorems about map_contains_value / array_concat / array_contains /
+    array_join hold in the initial state; the class `ArgOK` of `C12_script_array_join_correct`
+    contains the usual separators (and the empty one) and excludes exactly the separators of the
+    recorded finding -/
+example : NoStaleFor "scope::map_contains_value".toList ({} : ScriptSt).forStack ∧
+    IfCacheOK ({} : ScriptSt).ifMeta "scope::map_contains_value::4".toList 16 ∧
+    CacheOK ({} : ScriptSt).forMeta "scope::array_concat::10".toList 12 ∧
+    CacheOK ({} : ScriptSt).forMeta "scope::array_contains::5".toList 14 ∧
+    IfCacheOK ({} : ScriptSt).ifMeta "scope::array_join::10".toList 15 ∧
+    (∀ l, tget ({} : ScriptSt).coll.tbl [] ≠ some (.list l)) ∧
+    ArgOK ",".toList = true ∧ ArgOK ", ".toList = true ∧ ArgOK [] = true ∧ ArgOK "日本".toList = true ∧
+    ArgOK "\t".toList = false ∧ ArgOK "=z".toList = false ∧ ArgOK "${v}".toList = false := by
+  refine ⟨?_, Or.inl rfl, Or.inl rfl, Or.inl rfl, Or.inl rfl, ?_, by decide, by decide, by decide, by decide,
+    by decide, by decide, by decide⟩
+  · intro e h; cases h
+  · intro l h; cases h
+
+/-- the theorems are not vacuous on concrete inputs: a map with two equal values, two arrays -/
+example :
+    let st : ScriptSt := { coll := (Coll.run {} [(.map, []), (.mapPut, [Coll.handleName 1, "k".toList, "v".toList]),
+      (.mapPut, [Coll.handleName 1, "j".toList, "v".toList]), (.array, ["a".toList, "b".toList]), (.array, [])]).1 }
+    (runScriptCmd "map_contains_value".toList [Coll.handleName 1, "v".toList] [] st).1 = .continue (some sTrue) ∧
+    (runScriptCmd "map_contains_value".toList [Coll.handleName 1, "w".toList] [] st).1 = .continue (some sFalse) ∧
+    (runScriptCmd "array_concat".toList [Coll.handleName 2, Coll.handleName 3, Coll.handleName 2] [] st).1 =
+      .continue (some (Coll.handleName 5)) ∧
+    (runScriptCmd "array_contains".toList [Coll.handleName 2, "b".toList] [] st).1 = .continue (some "1".toList) ∧
+    (runScriptCmd "array_join".toList [Coll.handleName 2, ", ".toList] [] st).1 = .continue (some "a, b".toList) ∧
+    mapLen st.coll.tbl (Coll.handleName 1) = 2 ∧ acCells st.coll.tbl [Coll.handleName 2, Coll.handleName 3] = ["a".toList, "b".toList] := by
+  decide +kernel
 
 
 end Duck
